@@ -552,7 +552,7 @@ def run_property(pid, mod, tier, seed, replay=None, corpus_only=False):
             continue
         seen_classes.append(k)
         report_violation(r[0], r[3])
-        if len(seen_classes) >= 4:
+        if n_viol >= 4 or len(seen_classes) >= 40:   # known findings do not use up the budget
             break
     if not viol:
         if disagree:
